@@ -25,7 +25,7 @@ TRANS = ["none", "square", "rect"]
 
 
 def bounds(tier):
-    return {"bases": len(BASES), "type_patterns": "all 2^n", "density_classes": 2, "transforms": 3,
+    return {"bases": len(BASES), "type_patterns": "all 2^n", "density_classes": 3, "transforms": 3,
             "alpha": ALPHAS, "beta": BETAS,
             "hessian_alpha_beta": "all 18" if tier != "quick" else "6 pairs covering every special-cased value"}
 
@@ -34,7 +34,7 @@ def configs(tier, seed):
     out = []
     for bi, b in enumerate(BASES):
         for ti, tp in enumerate(al.type_patterns(len(b))):
-            for di, dens in enumerate(("psd", "indef")):
+            for di, dens in enumerate(("psd", "indef", "zerodiag")):
                 for ri, tr in enumerate(TRANS):
                     if tier == "quick" and (bi + ti + di + ri) % 3 != 0:
                         continue
@@ -72,6 +72,11 @@ def evaluate(cfg):
         T = np.array([hvec("stR%d" % r, n, -1, 1) for r in range(k)])
     X = np.array([hvec("stX%d" % r, k, -1, 1) for r in range(k)])
     gam = X @ X.T if cfg["dens"] == "psd" else (X + X.T) / 2
+    if cfg["dens"] == "zerodiag":
+        # symmetric, with exactly zero diagonal entries but non-zero rows (spin / difference / transition densities)
+        gam = gam.copy()
+        gam[0, 0] = 0.0
+        gam[-1, -1] = 0.0
     gam_ao = gam if T is None else T.T @ gam @ T
     kw = {} if T is None else {"transform": T}
     ev = er.BasisEvaluator(shells, pts, 4)
